@@ -163,10 +163,14 @@ class AddCyclicMemoryLayout(RewritePattern):
                 # increase current stride
                 current_stride = current_stride * layout_bound
 
-            # fill up empty strides
-            for stride in strides:
-                if not len(stride):
-                    stride.append(Stride(current_stride, 1))
+            # cover what the schedule leaves of every dimension (dimensions that are not accessed, or only
+            # partially), such that the tile bounds of a dimension always multiply to the operand shape
+            for dim, stride in enumerate(strides):
+                existing_bound = prod(s.bound for s in stride if s.bound)
+                size_remaining = memref_type.get_shape()[dim] // existing_bound
+                if not len(stride) or size_remaining > 1:
+                    stride.insert(0, Stride(current_stride, size_remaining))
+                    current_stride = current_stride * size_remaining
 
             layout = TiledStridedLayout([TiledStride(s) for s in strides]).canonicalize()
             tsl = TiledStridedLayoutAttr(layout)
